@@ -18,6 +18,9 @@ meta = {"name": name, "breaks_property": prop, "needs_to_manifest": needs, "ran"
 try:
     dst = os.path.join(scratch, "repo")
     subprocess.run(["git", "clone", "-q", "/repo", dst], check=True)
+    if os.environ.get("SEED_BASE"):
+        subprocess.run(["git", "-C", dst, "checkout", "-q", os.environ["SEED_BASE"]], check=True)
+    meta["base_commit"] = subprocess.run(["git", "-C", dst, "rev-parse", "--short", "HEAD"], capture_output=True, text=True).stdout.strip()
     # the demo scripts assert the worktree path of their author; rewrite it to the scratch clone
     txt = open(os.path.join(dest, "demo.py")).read()
     import re
